@@ -239,6 +239,12 @@ func (loader *Loader) ResolveRefsIn(doc *T, location *url.URL) (err error) {
 				return
 			}
 		}
+		for _, name := range componentNames(components.Links) {
+			component := components.Links[name]
+			if err = loader.resolveLinkRef(doc, component, location); err != nil {
+				return
+			}
+		}
 		for _, name := range componentNames(components.Callbacks) {
 			component := components.Callbacks[name]
 			if err = loader.resolveCallbackRef(doc, component, location); err != nil {
@@ -657,6 +663,11 @@ func (loader *Loader) resolveHeaderRef(doc *T, component *HeaderRef, documentPat
 			return err
 		}
 	}
+	for _, name := range componentNames(value.Examples) {
+		if err := loader.resolveExampleRef(doc, value.Examples[name], documentPath); err != nil {
+			return err
+		}
+	}
 	return nil
 }
 
@@ -722,6 +733,11 @@ func (loader *Loader) resolveParameterRef(doc *T, component *ParameterRef, docum
 			return err
 		}
 	}
+	for _, name := range componentNames(value.Examples) {
+		if err := loader.resolveExampleRef(doc, value.Examples[name], documentPath); err != nil {
+			return err
+		}
+	}
 	return nil
 }
 
@@ -783,8 +799,27 @@ func (loader *Loader) resolveRequestBodyRef(doc *T, component *RequestBodyRef, d
 			}
 			contentType.Examples[name] = example
 		}
+		if err := loader.resolveEncodingHeaders(doc, contentType, documentPath); err != nil {
+			return err
+		}
 		if schema := contentType.Schema; schema != nil {
 			if err := loader.resolveSchemaRef(doc, schema, documentPath, []string{}); err != nil {
+				return err
+			}
+		}
+	}
+	return nil
+}
+
+// resolveEncodingHeaders resolves the header references of a media type's encoding objects.
+func (loader *Loader) resolveEncodingHeaders(doc *T, mediaType *MediaType, documentPath *url.URL) error {
+	for _, name := range componentNames(mediaType.Encoding) {
+		encoding := mediaType.Encoding[name]
+		if encoding == nil {
+			continue
+		}
+		for _, headerName := range componentNames(encoding.Headers) {
+			if err := loader.resolveHeaderRef(doc, encoding.Headers[headerName], documentPath); err != nil {
 				return err
 			}
 		}
@@ -855,6 +890,9 @@ func (loader *Loader) resolveResponseRef(doc *T, component *ResponseRef, documen
 				return err
 			}
 			contentType.Examples[name] = example
+		}
+		if err := loader.resolveEncodingHeaders(doc, contentType, documentPath); err != nil {
+			return err
 		}
 		if schema := contentType.Schema; schema != nil {
 			if err := loader.resolveSchemaRef(doc, schema, documentPath, []string{}); err != nil {
